@@ -3,7 +3,7 @@
    about [gen_cfg] and the regenerated capacities / guards; see Properties_C10.v. *)
 From Coq Require Import List NArith Bool.
 From LBZ Require Import Gen.Consts SchedX.XState Gen.SchedXTab SchedX.XSet SchedX.XModel SchedX.XInvDefs
-  SchedX.XCount SchedX.XOracle SchedX.XSeq SchedX.XC10 SchedX.XC11.
+  SchedX.XCount SchedX.XOracle SchedX.XSeq SchedX.XC10 SchedX.XC11 SchedX.XOwn SchedX.XOwnRefuted SchedX.XC11b.
 Import ListNotations.
 Local Open Scope N_scope.
 
@@ -18,9 +18,7 @@ Theorem C11x_conserve :
 Proof. exact C11x_conserve_gen. Qed.
 
 (* queues never exceed the capacities given to pqueue_init/deque_init in init().
-   PARTIAL: input_q, retr_q, emit_q, reord_q.  Missing: scan_q (needs "at most one scan job
-   per live input block"), unord_q and order_q (need "every element owns a unit or a slot");
-   these three are asserted at run time by hook H3 in every replayed run. *)
+   PARTIAL (kept; superseded by C11x_capacity below): input_q, retr_q, emit_q, reord_q. *)
 Theorem C11x_capacity_partial :
   forall n tin tout ultra st, reach gen_cfg (init_state n tin tout ultra) st -> x_failed st = None ->
     let cap f := f (x_total_in st) (x_num_worker st) (x_total_out st) in
@@ -29,6 +27,66 @@ Theorem C11x_capacity_partial :
     N.of_nat (length (x_emit_q st)) <= cap cap_emit_q /\
     N.of_nat (length (x_reord_q st)) <= cap cap_reord_q.
 Proof. exact C11x_capacity_gen. Qed.
+
+(* All seven queues stay within the capacities regenerated from init().
+   - scan_q: at most one scan job (queued or running) per live input block (SchedX/XScanOwn.v).
+   - unord_q: it grows only where do_scan() records a candidate, and the source tests
+     `size(unord_q) >= unord_cap` there (regenerated boolean scan_checks_unord_cap; repair of
+     finding F9 - without the test the bound is false, notes/XF9Refuted_before_fix.v:
+     the unord block of a speculative job that the master overtakes stays queued, owning nothing).
+   - order_q: every head is owned by the master retriever of its block, by an emit-stage job of
+     its block or by the block's last buffer in reord_q; heads have distinct bit positions, so
+     length order_q <= held work units + length reord_q (SchedX/XOwn.v, XOwnProofs.v).
+   [preach]: every POk label of the run advances the parser's bit position by at least
+   HDR_MIN = 32 bits.  parse() (parse.c) returns OK only after it has consumed the 48-bit block
+   magic and the 32-bit block CRC in the same call, so every run of the program is such a run;
+   the model's parse1 also admits POk labels without progress, and for those the order_q part
+   is false of the model (C11x_order_empty_without_progress_refuted below).  The scan_q and
+   unord_q parts need no such hypothesis (C11x_capacity_scan_unord). *)
+Theorem C11x_capacity :
+  forall n tin tout ultra st, preach gen_cfg (init_state n tin tout ultra) st -> x_failed st = None ->
+    let cap f := f (x_total_in st) (x_num_worker st) (x_total_out st) in
+    N.of_nat (length (x_input_q st)) <= cap cap_input_q /\
+    N.of_nat (length (x_scan_q st)) <= cap cap_scan_q /\
+    N.of_nat (length (x_retr_q st)) <= cap cap_retr_q /\
+    N.of_nat (length (x_emit_q st)) <= cap cap_emit_q /\
+    N.of_nat (length (unord_q st)) <= cap cap_unord_q /\
+    N.of_nat (length (x_order_q st)) <= cap cap_order_q /\
+    N.of_nat (length (x_reord_q st)) <= cap cap_reord_q.
+Proof. exact C11x_capacity_all_gen. Qed.
+
+Theorem C11x_capacity_scan_unord :
+  forall n tin tout ultra st, reach gen_cfg (init_state n tin tout ultra) st -> x_failed st = None ->
+    N.of_nat (length (x_scan_q st)) <= cap_scan_q (x_total_in st) (x_num_worker st) (x_total_out st) /\
+    N.of_nat (length (unord_q st)) <= cap_unord_q (x_total_in st) (x_num_worker st) (x_total_out st).
+Proof. exact C11x_capacity_scan_unord_gen. Qed.
+
+(* when can_terminate() holds and nothing failed, every confirmed block has been written:
+   order_q is empty (so the run is `completed` in the sense of C10/C09) *)
+Theorem C11x_terminate_order_empty :
+  forall n tin tout ultra st, preach gen_cfg (init_state n tin tout ultra) st -> x_failed st = None ->
+    can_terminate st = true -> x_order_q st = [].
+Proof. exact terminate_order_empty_gen. Qed.
+
+(* the head of order_q always has an owner that can make progress towards it: the master
+   retriever of its block, an emit-stage job of its block at or after the head's buffer, or the
+   block's last buffer in reord_q (the lemma the liveness argument starts from) *)
+Theorem C11x_order_head_owned :
+  forall n tin tout ultra st h rest,
+    preach gen_cfg (init_state n tin tout ultra) st -> x_failed st = None -> x_order_q st = h :: rest ->
+    (snd (h_base h) = 0 /\ exists j, In j (all_jobs st) /\ jm (x_unords st) j = true /\ fst (r_base j) = fst (h_base h)) \/
+    (exists e, In e (estage st) /\ fst (e_base e) = fst (h_base h) /\ snd (h_base h) <= snd (e_base e)) \/
+    (exists o, In o (x_reord_q st) /\ o_status o <> MORE /\ fst (o_base o) = fst (h_base h) /\ snd (h_base h) <= snd (o_base o)).
+Proof. exact order_head_owned_gen. Qed.
+
+(* Why [preach]: with a POk label that consumes no bits (and a retriever that ends where it
+   began) the MODEL reaches a non-failed state in which can_terminate() holds and order_q is not
+   empty.  This is a permissiveness of the model's label constraints (parse1 checks
+   `d_bit parser_bs <= d_bit bs`, not `<`), not a behaviour of the program. *)
+Theorem C11x_order_empty_without_progress_refuted :
+  exists st, reach gen_cfg (init_state 2 8 32 false) st /\ x_failed st = None /\ can_terminate st = true /\
+    x_order_q st <> [].
+Proof. exact terminate_order_empty_needs_progress. Qed.
 
 (* when can_terminate() holds, every unit and slot has been given back and the
    pipeline is empty *)
@@ -58,4 +116,7 @@ Proof. intros O n tin tout ultra st L R H1 H2. exact (proj1 (C10_speculation_fre
    notes/fix_F8_deadlock.diff).  For the repaired guard the missing proof is the case
    analysis "out_slots <= EMIT_THRESH or work_units = 0: the job at or before the head of
    order_q can always proceed" together with the ownership invariant of unord_q/order_q;
-   until then liveness is supported only by the watchdog-timed runs of the direct tests. *)
+   until then liveness is supported only by the watchdog-timed runs of the direct tests.
+   The ownership invariant is now available: C11x_order_head_owned, and SchedX/XOwnProofs.v
+   (more_buffer_followed: a buffer with status MORE in reord_q is followed by its block's emit
+   job or last buffer). *)
